@@ -46,7 +46,7 @@ type jwkServer struct {
 	keys     map[string]*rsa.PrivateKey // published kid -> key
 	srv      *httptest.Server
 	broken   string        // "" | "garbage" | "500" | "503json" | "404json": what the endpoint answers instead of the key set
-	extra    string        // "" | "okp" | "badrsa" | "both": entries published next to the RSA keys that the hook cannot use
+	extra    string        // "" | "okp" | "badrsa" | "both" | "null": entries published next to the RSA keys that the hook cannot use
 	slow     time.Duration // answer only after this long (or when the client has gone away)
 	inflight int32
 }
@@ -107,6 +107,14 @@ func (s *jwkServer) handler(w http.ResponseWriter, r *http.Request) {
 	}
 	for kid, k := range s.keys {
 		ks = append(ks, jwk{Kty: "RSA", Kid: kid, N: b64(k.N.Bytes()), E: b64(big.NewInt(int64(k.E)).Bytes()), Alg: "RS256", Use: "sig"})
+	}
+	if s.extra == "null" { // a null entry in the array (D39)
+		l := []interface{}{nil}
+		for _, k := range ks {
+			l = append(l, k)
+		}
+		_ = json.NewEncoder(w).Encode(map[string]interface{}{"keys": append(l, nil)})
+		return
 	}
 	_ = json.NewEncoder(w).Encode(map[string]interface{}{"keys": ks})
 }
@@ -533,9 +541,11 @@ func runC15(c *Ctx) {
 			}
 			publish()
 			js.mu.Lock()
-			js.extra = []string{"", "", "okp", "badrsa", "both"}[r.Intn(5)]
+			js.extra = []string{"", "", "okp", "badrsa", "both", "null"}[r.Intn(6)]
 			extra := js.extra
 			js.mu.Unlock()
+			rotOp := "jwt.rotation extra=" + map[string]string{"": "-"}[extra] + extra + " keys=" + keysArg()
+			c.Begin(rotOp) // a refresh that brings the process down is reported with this case in flight
 			rerr := jwthook.VerifUpdateKeys(h)
 			c.Emit("jwt.rotation extra="+map[string]string{"": "-"}[extra]+extra+" keys="+keysArg(), map[bool]string{true: "published", false: "REFRESH-FAILED"}[rerr == nil])
 			ts.signWith = r.Intn(3)
